@@ -24,6 +24,7 @@ CONSTANTS
   FIX_OVERFLOW = TRUE
   QMax = 99
   LooseFilter = TRUE
+  LooseEnv = %(loose)s
   RECORD = FALSE
 INVARIANTS NotDone
 CHECK_DEADLOCK FALSE
@@ -34,8 +35,8 @@ def q(s):
     return '"%s"' % s
 
 
-def validate(events, scratch_name):
-    """returns (accepted, consumed, result)"""
+def validate(events, scratch_name, loose_env=False):
+    """returns (accepted, result); loose_env: the environment may deliver any event at any time"""
     dirs = set(events[0]["dirs"]) | set(events[0]["ex"])
     opts = [frozenset(events[0]["dirs"])]
     for e in events:
@@ -48,7 +49,7 @@ def validate(events, scratch_name):
     nconf = sum(1 for e in events if e["ev"] == "configured")
     cfg = CFG % {"D": ", ".join(q(d) for d in D),
                  "opts": ", ".join("{" + ", ".join(q(d) for d in sorted(o)) + "}" for o in set(opts)),
-                 "nfs": max(1, sum(1 for e in events if e["ev"] == "fs")), "nconf": nconf, "nw": nconf + 1}
+                 "nfs": max(1, sum(1 for e in events if e["ev"] == "fs")), "nconf": nconf, "nw": nconf + 1, "loose": "TRUE" if loose_env else "FALSE"}
     f = os.path.join(vlib.OUT, "%d-%s.ndjson" % (os.getpid(), scratch_name))
     os.makedirs(vlib.OUT, exist_ok=True)
     vlib.write_rows(events, f)
